@@ -1645,6 +1645,8 @@ func TestVerif_C06(t *testing.T) {
 	var wgCases, wgIdx, wrCases, wrIdx []string
 	var lgCookies, lgCases, lgIdx []string
 	var groups, routeIdx []string
+	var histCoq, roleCoq string
+	var histIdx, roleIdx []string
 	nRoute := 0
 	groupOffset := 0
 	witnessed := map[string]int{}
@@ -1693,6 +1695,15 @@ func TestVerif_C06(t *testing.T) {
 		}
 		if ci == 0 {
 			c06RealTLS(p, hit)
+		}
+		if ci == 0 {
+			// ordered pairs of requests on ONE daemon against the same request on a fresh daemon (c06_hist.go)
+			histCoq, histIdx = c06HistoryStage(t, p, cfg, mat, fakes, res, hit)
+		}
+		if ci == 0 {
+			// role certificates minted through the real endpoint for every key type, on servers with and
+			// without an Ed25519 CA, presented with the chain crypto/x509 verifies (c06_role.go)
+			roleCoq, roleIdx = c06RoleCertStage(t, p, cfg, mat, fakes, res, hit)
 		}
 		if cfg.name == "B" {
 			ck, cs, ix := c06LoginCases(p, thorough, true, len(lgCookies), len(lgIdx), hit)
@@ -2004,6 +2015,8 @@ func TestVerif_C06(t *testing.T) {
 	sb.WriteString("Definition c06_route_violating := Eval vm_compute in chunk_violating route_result.\nPrint c06_route_violating.\n")
 	sb.WriteString("Definition c06_route_mismatch_count := Eval vm_compute in chunk_bad route_result.\nPrint c06_route_mismatch_count.\n")
 	sb.WriteString("Definition c06_gate_mismatch_count := Eval vm_compute in chunk_bad gate_result.\nPrint c06_gate_mismatch_count.\n")
+	sb.WriteString(histCoq)
+	sb.WriteString(roleCoq)
 	sb.WriteString("Definition c06_ncases := Eval vm_compute in (chunk_total gate_result + chunk_total route_result).\nPrint c06_ncases.\n")
 	if err := ioutil.WriteFile(filepath.Join(verifOut(), "CasesC06.v"), []byte(sb.String()), 0644); err != nil {
 		t.Fatal(err)
@@ -2014,6 +2027,8 @@ func TestVerif_C06(t *testing.T) {
 	ioutil.WriteFile(filepath.Join(verifOut(), "CasesC06_wgate.idx"), []byte(strings.Join(wgIdx, "\n")), 0644)
 	ioutil.WriteFile(filepath.Join(verifOut(), "CasesC06_wroute.idx"), []byte(strings.Join(wrIdx, "\n")), 0644)
 	ioutil.WriteFile(filepath.Join(verifOut(), "CasesC06_login.idx"), []byte(strings.Join(lgIdx, "\n")), 0644)
+	ioutil.WriteFile(filepath.Join(verifOut(), "CasesC06_hist.idx"), []byte(strings.Join(histIdx, "\n")), 0644)
+	ioutil.WriteFile(filepath.Join(verifOut(), "CasesC06_role.idx"), []byte(strings.Join(roleIdx, "\n")), 0644)
 	res.Extra["login_probes"] = len(lgCases)
 	res.Extra["window_gate_calls"] = len(wgCases)
 	res.Extra["window_route_probes"] = len(wrCases)
